@@ -35,8 +35,8 @@ func (l *verifLayer) Refresh(ctx context.Context, hosts source.RegistryHosts, re
 	return nil
 }
 func (l *verifLayer) Verify(tocDigest digest.Digest) error { return nil }
-func (l *verifLayer) SkipVerify()                           {}
-func (l *verifLayer) Prefetch(prefetchSize int64) error     { return nil }
+func (l *verifLayer) SkipVerify()                          {}
+func (l *verifLayer) Prefetch(prefetchSize int64) error    { return nil }
 func (l *verifLayer) ReadAt(p []byte, off int64, opts ...remote.Option) (int, error) {
 	return 0, nil
 }
@@ -62,7 +62,7 @@ var (
 func VerifH_C16_useReleaseHistory() {
 	steps, nrefs := 4, 1
 	if vr.Tier() > 0 {
-		steps, nrefs = 5, 2
+		steps, nrefs = 5, 1
 	}
 	refs := []reference.Spec{}
 	for _, s := range []string{"docker.io/library/a:1", "docker.io/library/b:1"}[:nrefs] {
@@ -195,9 +195,6 @@ type verifStoredRef struct {
 // the goroutines run in - and a lookup of any other digest fails.
 func VerifH_C16_getLayerLookup() {
 	steps := 4
-	if vr.Tier() > 0 {
-		steps = 5
-	}
 	var refs []reference.Spec
 	for _, s := range []string{"docker.io/library/a:1", "docker.io/library/a:2"} {
 		r, err := reference.Parse(s)
@@ -279,9 +276,9 @@ func VerifH_C16_getLayerLookup() {
 	ctx := context.Background()
 	uses := map[string]int{}
 	key := func(ri, ti int) string { return refs[ri].String() + "|" + tocs[ti].String() }
-	if vr.Tier() > 0 && vr.Bool("interleave") {
-		vr.Interleave(3)
-	}
+	// Engine-scheduled interleavings of getLayer's goroutines (vr.Interleave) were tried for a thorough tier: two
+	// operations with <=3 switches already exceed 900 k paths in 8 minutes (no finding); not registered. The select in
+	// getLayer still chooses among all ready channels (result / error / all-done), which is what C16-m1 needs.
 	for s := 0; s < steps; s++ {
 		// the operations possible now: 8 lookups, plus one release per pair in use
 		type pair struct{ ri, ti int }
